@@ -136,6 +136,29 @@ pub fn case(ctx: &Ctx, idx: u64) -> CaseOut {
         }
         out.count("stages_observed", stages.len() as u64);
         out.count("local_search_steps", stages.ls_steps() as u64);
+        // C04: the value that is finally reported is read from caches that every stage and every
+        // accepted search step updated incrementally; recompute them on all recorded schedules
+        if ctx.prop == "C04" && !stages.is_empty() {
+            if let Ok(b) = crate::bridge::Bridge::from_parts(inst.clone(), stages.stages[0].1.get_network()) {
+                let mut schedules: Vec<(String, &solution::Schedule)> = stages.stages.iter().map(|(n, s)| (format!("stage {}", n), s)).collect();
+                for st in &stages.steps {
+                    schedules.push((format!("search step {}", st.iteration), &st.new.0));
+                }
+                for (name, sched) in schedules {
+                    let o = crate::bridge::Obs::of(&b, sched);
+                    out.count("intermediate_schedules_recomputed", 1);
+                    let f = crate::bridge::check_caches(&b, &o);
+                    if let Some(first) = f.first() {
+                        out.viol(
+                            "C04",
+                            &format!("objective.cached_value_of_intermediate_schedule.{}", first.clause),
+                            format!("{}: {}", name, first.detail),
+                        );
+                        break;
+                    }
+                }
+            }
+        }
     }
 
     let nontrivial = match ctx.prop.as_str() {
